@@ -133,6 +133,9 @@ def run(pid, tier, replay=None):
                     "unknown_message_type", "unknown_data_type", "header_only_data", "oversize_inventory", "getdata_transaction_type",
                     "getdata_unknown_hash", "peers_with_unusable_addresses", "repeated_greeting", "empty_inventory", "get_peers",
                     "duplicate_block", "trailing_garbage_frame", "random_bytes", "bit_flipped_frame", "spliced_frames", "truncated_then_valid"]
+    bulk_cls = "invalid_block_in_bulk_then_a_rejected_block"
+    import skepticoin.networking.remote_peer as rp_c
+    ibd_skip = rp_c.IBD_VALIDATION_SKIP
     block_classes = {"block_invalid_by_itself": ["merkle", "badpow", "cb_height", "no_reward", "two_rewards", "cb_blank"],
                      "block_invalid_in_state": ["badtarget", "ts_equal", "evidence", "evidence_otherchain", "evidence_otherchain", "evidence_otherchain", "evidence_otherchain", "height_plus", "reward+1"],
                      "block_that_cannot_be_applied": ["ghost", "spent"],
@@ -149,7 +152,8 @@ def run(pid, tier, replay=None):
         try:
             rec = NodeRec(run_, rng)
             rt = RandomTree(w, rec, rng, nkeys=3, p_mut=0.0)
-            for _ in range(3 if i % 2 else 6):
+            # every fourth node is fresh from its start-up path: nothing has been validated in this run when the first input arrives
+            for _ in range(0 if i % 4 == 0 else 3 if i % 2 else 6):
                 rt.step()
             run_.events, run_.labels = [], []
             gen = Gen(run_, rt, rng)
@@ -195,8 +199,10 @@ def run(pid, tier, replay=None):
                     hconnect()
                     openp = [n for n in run_.peers if run_.node.is_open(n)]
                 peer = rng.choice(openp)
-                allc = byte_classes + list(block_classes) + list(tx_classes) + ["non_greeting_first"]
+                allc = byte_classes + list(block_classes) + list(tx_classes) + ["non_greeting_first", bulk_cls]
                 cls = rng.choice(allc)
+                if k == 0 and i % 4 == 0:
+                    cls = bulk_cls              # also as the very first thing a freshly started node sees (nothing validated yet in this run)
                 if cls == "non_greeting_first":
                     peer = hconnect(direction="INCOMING", hello=False, host3=2)
                     openp = [n for n in run_.peers if run_.node.is_open(n)]
@@ -213,7 +219,14 @@ def run(pid, tier, replay=None):
                 before_ids = set(cs.block_by_hash.keys())
                 data = None
                 blk_ = None
-                if cls in block_classes:
+                if cls == bulk_cls:
+                    x1 = make_block(rt, w, rng, rng.choice(["reward+1", "badtarget", "evidence"]))
+                    x2 = make_block(rt, w, rng, rng.choice(["reward+1", "ts_equal"]))
+                    if x1 is None or x2 is None or x1.height % ibd_skip == 0:
+                        cls, data = "get_peers", gen.make("get_peers")
+                    else:
+                        data = frame_of(M.DataMessage(M.DATA_BLOCK, x1), gen.nid(), irt=77) + frame_of(M.DataMessage(M.DATA_BLOCK, x2), gen.nid())
+                elif cls in block_classes:
                     m = rng.choice(block_classes[cls])
                     blk_ = make_block(rt, w, rng, m)
                     if blk_ is None:
